@@ -87,6 +87,83 @@ theorem funcNamesOut_sound (l : List (Nat × String)) (fm : List (Nat × Nat)) (
       subst hi
       exact ⟨i, h1, h2⟩
 
+theorem rtElem_flag (fm : List (Nat × Nat)) (maps : IdMaps) (e e' : ElemM) (h : rtElem fm maps e = some e') :
+    (match e.mode, e.items with
+     | .active t _, .funcs _ => t.getD 0 = 0 → e'.flag = 0
+     | .active t _, .exprs ty _ => t.getD 0 = 0 → ty = "funcref" → e'.flag = 4
+     | .passive, .funcs _ => e'.flag = 1
+     | .declared, .funcs _ => e'.flag = 3
+     | .passive, .exprs _ _ => e'.flag = 5
+     | .declared, .exprs _ _ => e'.flag = 7) := by
+  obtain ⟨fl, md, it⟩ := e
+  unfold rtElem at h
+  cases md with
+  | passive =>
+    cases it with
+    | funcs fs =>
+      simp only at h
+      cases hm : fs.mapM (assoc fm) with
+      | none => simp [hm] at h
+      | some fs' => simp [hm] at h; subst h; simp [elemFlag]
+    | exprs ty es =>
+      simp only at h
+      cases hm : es.mapM (mapCExpr maps) with
+      | none => simp [hm] at h
+      | some es' => simp [hm] at h; subst h; simp [elemFlag]
+  | declared =>
+    cases it with
+    | funcs fs =>
+      simp only at h
+      cases hm : fs.mapM (assoc fm) with
+      | none => simp [hm] at h
+      | some fs' => simp [hm] at h; subst h; simp [elemFlag]
+    | exprs ty es =>
+      simp only at h
+      cases hm : es.mapM (mapCExpr maps) with
+      | none => simp [hm] at h
+      | some es' => simp [hm] at h; subst h; simp [elemFlag]
+  | active t off =>
+    cases it with
+    | funcs fs =>
+      simp only at h
+      cases ho : mapCExpr maps off with
+      | none => simp [ho] at h
+      | some off' =>
+        cases hm : fs.mapM (assoc fm) with
+        | none => simp [ho, hm] at h
+        | some fs' =>
+          simp only [ho, hm, Option.map_some, Option.some.injEq] at h
+          subst h
+          intro ht
+          simp [ht, elemFlag]
+    | exprs ty es =>
+      simp only at h
+      cases ho : mapCExpr maps off with
+      | none => simp [ho] at h
+      | some off' =>
+        cases hm : es.mapM (mapCExpr maps) with
+        | none => simp [ho, hm] at h
+        | some es' =>
+          simp only [ho, hm, Option.map_some, Option.some.injEq] at h
+          subst h
+          intro ht hty
+          simp [ht, hty, elemFlag]
+
+theorem rtData_facts (maps : IdMaps) (d d' : DataM) (h : rtData maps d = some d') :
+    d'.bytes = d.bytes ∧
+    (match d.mode with
+     | .passive => d'.mode = .passive ∧ d'.flag = 1
+     | .active mem _ => (∃ off, d'.mode = .active mem off) ∧ d'.flag = (match mem with | 0 => 0 | _ => 2)) := by
+  obtain ⟨fl, md, by'⟩ := d
+  unfold rtData at h
+  cases md with
+  | passive => simp at h; subst h; exact ⟨rfl, rfl, rfl⟩
+  | active mem off =>
+    simp only [Option.map_eq_some_iff] at h
+    obtain ⟨o', _, rfl⟩ := h
+    refine ⟨rfl, ⟨o', rfl⟩, ?_⟩
+    cases mem <;> simp [dataFlag]
+
 /-- everything `roundTripModule` returns, as equations on the components -/
 structure RTComponents (m o : ModuleM) : Prop where
   tables : o.tables = m.tables
@@ -108,6 +185,20 @@ structure RTComponents (m o : ModuleM) : Prop where
      | .passive => d'.mode = .passive
      | .active mem _ => ∃ off, d'.mode = .active mem off)
   startSome : m.start.isSome = o.start.isSome
+  elems : ∀ (k : Nat) (e : ElemM), m.elems[k]? = some e → ∃ e' : ElemM, o.elems[k]? = some e' ∧
+    (match e.mode, e.items with
+     | .active t _, .funcs _ => t.getD 0 = 0 → e'.flag = 0
+     | .active t _, .exprs ty _ => t.getD 0 = 0 → ty = "funcref" → e'.flag = 4
+     | .passive, .funcs _ => e'.flag = 1
+     | .declared, .funcs _ => e'.flag = 3
+     | .passive, .exprs _ _ => e'.flag = 5
+     | .declared, .exprs _ _ => e'.flag = 7)
+  dataFlags : ∀ (k : Nat) (d : DataM), m.datas[k]? = some d → ∃ d' : DataM, o.datas[k]? = some d' ∧
+    (match d.mode with
+     | .passive => d'.flag = 1
+     | .active 0 _ => d'.flag = 0
+     | .active _ _ => d'.flag = 2)
+  noDataNoCount : m.datas = [] → o.dataCount = none
   funcsLen : o.funcs.length = o.code.length
   -- one map renames the function operands of exports and of the start section
   funcRenaming : ∃ ρ : List (Nat × Nat),
@@ -134,7 +225,7 @@ theorem roundTrip_components (m o : ModuleM) (h : roundTripModule m = some o) : 
           simp only [Option.some.injEq] at h
           subst h
           refine ⟨rfl, rfl, mapM_some_length _ _ _ him, ?_, mapM_some_length _ _ _ hgl, ?_,
-            mapM_some_length _ _ _ hex, ?_, mapM_some_length _ _ _ hel, mapM_some_length _ _ _ hda, ?_, ?_, ?_, ?_⟩
+            mapM_some_length _ _ _ hex, ?_, mapM_some_length _ _ _ hel, mapM_some_length _ _ _ hda, ?_, ?_, ?_, ?_, ?_, ?_, ?_⟩
           · intro k i hk
             obtain ⟨j, hj, hf⟩ := mapM_some_get _ _ _ him k i hk
             refine ⟨j, hj, ?_⟩
@@ -163,20 +254,35 @@ theorem roundTrip_components (m o : ModuleM) (h : roundTripModule m = some o) : 
             · simp at hf; subst hf; exact ⟨rfl, rfl, fun _ => rfl⟩
           · intro k d hk
             obtain ⟨j, hj, hf⟩ := mapM_some_get _ _ _ hda k d hk
-            refine ⟨j, hj, ?_⟩
-            obtain ⟨fl, md, by'⟩ := d
-            cases md with
-            | passive => simp at hf; subst hf; exact ⟨rfl, rfl⟩
-            | active mem off =>
-              simp only [Option.map_eq_some_iff] at hf
-              obtain ⟨o', _, rfl⟩ := hf
-              exact ⟨rfl, o', rfl⟩
+            refine ⟨j, hj, (rtData_facts _ d j hf).1, ?_⟩
+            have := (rtData_facts _ d j hf).2
+            cases hm : d.mode with
+            | passive => simp only [hm] at this; exact this.1
+            | active mem off => simp only [hm] at this; exact this.1
           · cases hs : m.start with
             | none => simp [hs] at hst; subst hst; rfl
             | some s =>
               simp only [hs, Option.map_eq_some_iff] at hst
               obtain ⟨s', _, rfl⟩ := hst
               rfl
+          · -- element flags
+            intro k e hk
+            obtain ⟨j, hj, hf⟩ := mapM_some_get _ _ _ hel k e hk
+            exact ⟨j, hj, rtElem_flag _ _ e j hf⟩
+          · -- data flags
+            intro k d hk
+            obtain ⟨j, hj, hf⟩ := mapM_some_get _ _ _ hda k d hk
+            refine ⟨j, hj, ?_⟩
+            have := (rtData_facts _ d j hf).2
+            cases hm : d.mode with
+            | passive => simp only [hm] at this; exact this.2
+            | active mem off =>
+              simp only [hm] at this
+              cases mem with
+              | zero => exact this.2
+              | succ n => exact this.2
+          · intro hd
+            simp [hd]
           · simp
           · refine ⟨(List.range (importedCount m "f")).map (fun i => (i, i)) ++
               oc.funcs.zipIdx.map (fun p => (p.1.id, importedCount m "f" + p.2)), ?_, ?_, ?_⟩
